@@ -54,6 +54,7 @@ type concState struct {
 	thread   int
 	counter  map[int]int
 	held     map[int][]*lockSection
+	reentries []reentry // a lock taken again by the thread that holds it
 	sections []*lockSection
 	accesses []access
 	seenAcc  map[string]bool
@@ -301,6 +302,12 @@ func (i *interpreter) lockOp(name string, p *value, fr *frame) {
 	switch {
 	case strings.HasSuffix(name, ".Lock"), strings.HasSuffix(name, ".RLock"):
 		s := &lockSection{lock: p, write: strings.HasSuffix(name, ".Lock"), thread: t, acq: c.tick(), rel: -1, pos: callerWhere(fr)}
+		for _, h := range c.held[t] {
+			if h.lock == p {
+				// the same lock taken again while held: sync's mutexes are not reentrant
+				c.reentries = append(c.reentries, reentry{outer: h, inner: s})
+			}
+		}
 		c.held[t] = append(c.held[t], s)
 		c.sections = append(c.sections, s)
 	default:
@@ -315,6 +322,8 @@ func (i *interpreter) lockOp(name string, p *value, fr *frame) {
 		}
 	}
 }
+
+type reentry struct{ outer, inner *lockSection }
 
 // orderedByPool: access x happens before its thread Puts the object and access y
 // after the other thread's matching Get (program order + Put-before-Get).
@@ -479,6 +488,39 @@ func init() {
 		c.thread = 0
 		done := map[string]bool{}
 		npairs := 0
+		// a lock re-acquired while held: a write lock (or a read lock under a write lock) blocks on
+		// itself; a read lock under a read lock blocks as soon as another request's Lock() falls in
+		// between (a waiting writer bars new readers) - such a writer exists if the other request has
+		// a write section on that lock
+		seenRe := map[string]bool{}
+		for _, re := range c.reentries {
+			blocks := re.outer.write || re.inner.write
+			if !blocks {
+				for _, s := range c.sections {
+					if s.thread != re.outer.thread && s.thread != 0 && s.lock == re.outer.lock && s.write {
+						blocks = true
+					}
+				}
+			}
+			key := re.outer.pos + "|" + re.inner.pos
+			if seenRe[key] {
+				continue
+			}
+			seenRe[key] = true
+			ex.stats.Obligations++
+			ob := &Obligation{Harness: ex.harness, Cfg: ex.cfg, Pos: re.outer.pos + " / " + re.inner.pos,
+				Msg: fmt.Sprintf("no request blocks forever: request %d takes the lock it already holds (held since %s, taken again at %s) while the other request may be waiting to write-lock it", re.outer.thread, re.outer.pos, re.inner.pos)}
+			if blocks {
+				ob.Status = "violated"
+				ob.Model = ex.model()
+				ob.Prefix = append([]int(nil), ex.decisions...)
+				ex.stats.Violated++
+			} else {
+				ob.Status = "discharged"
+				ex.stats.Discharged++
+			}
+			ex.obls = append(ex.obls, ob)
+		}
 		for x := 0; x < len(c.accesses); x++ {
 			for y := x + 1; y < len(c.accesses); y++ {
 				a, b := c.accesses[x], c.accesses[y]
